@@ -70,7 +70,15 @@ CLAIM = dict(
           "but sign, width or n_frac) in both orders. Scale stream: arrays of 257 / 65,537 / 131,073 / 10^6 elements "
           "(five layouts) made of a 48-value block checked against the model, the large result compared with the "
           "block's (array-ne-scalar-large); formats of 257 - 100,000 bits and integers up to 2^5000 for the scalar "
-          "closures. Every implementation call runs under a CPU-time limit: where the (total) model yields a value a "
+          "closures. Shape stream: array SHAPE is a generator dimension of its own - for NumpyFloatToFixConverter and "
+          "NumpyFixToFloatConverter, every width 8/16/32/64 and both signednesses, every one of: zero-size arrays of "
+          "ranks 1-3 ((0,), (0,3), (2,0,4), (3,0), an empty slice, empty float32 / int32 arrays), empty list / tuple / "
+          "nested list, 0-d array, NumPy scalar, (1,), (1,1), vector, 2-D, 3-D, 7-D, strided / reversed / transposed / "
+          "column views, Fortran order, broadcast (zero-stride) view, read-only arrays, list / tuple / nested lists, "
+          "float32 / float16 2-D; the result must have the input's shape, the documented dtype and the model's value "
+          "element for element, and ANY exception on a format the model accepts is the violation "
+          "exception-on-valid-input (also for inputs without elements, where no element could carry it). "
+          "Every implementation call runs under a CPU-time limit: where the (total) model yields a value a "
           "call that does not return is the violation did-not-return."),
     design="3/C16",
     note=("Doubles are modelled as (m, e) pairs. PROVED inside the model (no longer trusted): the model's int -> "
@@ -135,7 +143,8 @@ RULE = ("one case = one format (signed, n_bits, n_frac) with 6-24 doubles built 
         "2 (36 thorough) random ones, 6 (60) wide-format / huge-integer scalar cases; 500 (8,000) NumPy-scalar cases: "
         "float16 / float32 / float64 values (rounded to the type, its extremes) for float_to_fp / float_to_fix over the "
         "general format generator plus n_frac around 16 / 128 / 1000, unsigned / signed NumPy words and integers for "
-        "fix_to_float / fp_to_float over widths 1-80. "
+        "fix_to_float / fp_to_float over widths 1-80; shape cases: the full product {signed, unsigned} x {8,16,32,64} x "
+        "33 shape kinds (to-fix) resp. 21 (to-float), 1 (8 thorough) random n_frac and value set each = 432 (3,456). "
         "A case is non-trivial when it contains both a saturating value and an in-range value whose scaled value has a "
         "fractional part (conversion and narrow cases), an in-range integer of more than 24 bits (inverse cases), or a value "
         "that saturates in an earlier step and not in a later one (sequence cases), or one converter called twice on the same "
@@ -1751,6 +1760,8 @@ def impl_reuse(case):
             n_el = len(oc["orig"] if kind == "np_fix" else oc["ks"])
             if "err" in r:
                 oc["ret"] = [r] * n_el
+                if n_el == 0:
+                    oc["call_err"] = r          # no element carries the exception: keep it for the whole call
                 recheck("call %d raising" % (j + 1))
                 continue
             res = r["ok"]
@@ -1903,6 +1914,11 @@ def judge_reuse(ctx, c):
                     break
         if oc.get("meta") is False:
             ctx.violation("array-shape-dtype", "%s changed shape / dtype" % who, desc)
+        if oc.get("call_err") and fmt["frac"] < 1024:
+            a = oc["call_err"]
+            ctx.violation(exc_key(a, "exception-on-valid-input"),
+                          "%s raised %s for an input without elements; an empty array of the documented dtype is the "
+                          "only result that agrees with the scalar converter" % (who, a["err"]), desc)
         if oc.get("input_modified"):
             ctx.violation("array-input-modified", "%s changed the caller's input: %s" % (who, oc["input_modified"]), desc)
         # the kept result must still be what was returned
@@ -2113,6 +2129,229 @@ def judge_scale(ctx, c):
     ctx.case(desc, True)
 
 
+# ---------------------------------------------------------------- array SHAPE as a generator dimension
+SHAPE_KINDS_BOTH = ["z1", "z2", "z3", "z2b", "zslice", "0d", "npscalar", "one", "one2", "vec", "m2", "m3", "nd7",
+                    "strided", "rev", "T", "col", "fortran", "bcast", "ro", "ro_T"]
+SHAPE_KINDS_FLOAT_ONLY = ["list", "tuple", "nested", "nested3", "elist", "etuple", "enested", "z_f32", "z_int",
+                          "list1", "f32_m2", "f16_T"]
+
+
+def shaped(np, vals, kind, dt):
+    """the values (12 of them) presented in the shape / container `kind`"""
+    a = np.array(vals, dtype=dt)
+    if kind == "z1":
+        return np.zeros((0,), dtype=dt)
+    if kind == "z2":
+        return np.zeros((0, 3), dtype=dt)
+    if kind == "z3":
+        return np.zeros((2, 0, 4), dtype=dt)
+    if kind == "z2b":
+        return np.zeros((3, 0), dtype=dt)
+    if kind == "zslice":
+        return a[5:5]
+    if kind == "z_f32":
+        return np.zeros((0, 2), dtype=np.float32)
+    if kind == "z_int":
+        return np.zeros((0,), dtype=np.int32)
+    if kind == "0d":
+        return np.array(vals[0], dtype=dt)
+    if kind == "npscalar":
+        return dt(vals[0])
+    if kind == "one":
+        return a[:1].copy()
+    if kind == "one2":
+        return a[:1].reshape(1, 1).copy()
+    if kind == "vec":
+        return a
+    if kind == "m2":
+        return a.reshape(3, 4)
+    if kind == "m3":
+        return a.reshape(2, 3, 2)
+    if kind == "nd7":
+        return a.reshape(1, 2, 1, 3, 1, 2, 1)
+    if kind == "strided":
+        b = np.zeros(24, dtype=dt)
+        b[::2] = a
+        return b[::2]
+    if kind == "rev":
+        return a[::-1]
+    if kind == "T":
+        return a.reshape(3, 4).T
+    if kind == "col":
+        return a.reshape(3, 4)[:, 1]
+    if kind == "fortran":
+        return np.asfortranarray(a.reshape(3, 4))
+    if kind == "bcast":
+        return np.broadcast_to(a[:3], (4, 3))
+    if kind in ("ro", "ro_T"):
+        b = a.reshape(3, 4).T if kind == "ro_T" else a
+        b.flags.writeable = False
+        return b
+    if kind == "list":
+        return [float(x) for x in vals]
+    if kind == "list1":
+        return [float(vals[0])]
+    if kind == "tuple":
+        return tuple(float(x) for x in vals)
+    if kind == "nested":
+        return [[float(x) for x in vals[:6]], [float(x) for x in vals[6:]]]
+    if kind == "nested3":
+        return [[[float(x)] for x in vals[:3]], [[float(x)] for x in vals[3:6]]]
+    if kind == "elist":
+        return []
+    if kind == "etuple":
+        return ()
+    if kind == "enested":
+        return [[], []]
+    if kind == "f32_m2":
+        return np.array(vals, dtype=np.float32).reshape(4, 3)
+    if kind == "f16_T":
+        return np.array(vals, dtype=np.float16).reshape(4, 3).T
+    raise ValueError(kind)
+
+
+def gen_shape_cases(rng, per_format):
+    """every NumPy converter, both directions, every width and signedness x every shape kind"""
+    cases = []
+    for signed in (True, False):
+        for bits in NP_BITS:
+            for kind in SHAPE_KINDS_BOTH + SHAPE_KINDS_FLOAT_ONLY:
+                for _ in range(per_format):
+                    r = rng.random()
+                    frac = 0 if r < 0.3 else rng.randrange(0, bits + 1) if r < 0.85 else rng.randrange(-6, bits + 6)
+                    fmt = {"signed": signed, "bits": bits, "frac": frac}
+                    xs = gen_values(rng, fmt, 12)
+                    if kind in ("f32_m2", "f16_T"):
+                        prec = "f32" if kind == "f32_m2" else "f16"
+                        ys = [y for y in (to_narrow(x, prec) for x in xs) if y is not None] or [0.5]
+                        xs = (ys * 12)[:12]
+                    cases.append({"kind": "shape", "conv": "np_fix", "fmt": fmt, "shape_kind": kind,
+                                  "vs": [to_dy(x) for x in xs]})
+            for kind in SHAPE_KINDS_BOTH:
+                for _ in range(per_format):
+                    fmt = {"signed": signed, "bits": bits, "frac": rng.choice([0, rng.randrange(0, bits + 1),
+                                                                              rng.randrange(-8, 70)])}
+                    cases.append({"kind": "shape", "conv": "np_float", "fmt": fmt, "shape_kind": kind,
+                                  "ks": gen_ints_in(rng, fmt, 12)})
+    return cases
+
+
+def impl_shape(case):
+    import numpy as np
+    from rig import type_casts as tc
+    fmt, kind = case["fmt"], case["conv"]
+    s, b, f = fmt["signed"], fmt["bits"], fmt["frac"]
+    out = {}
+    with np.errstate(all="ignore"):
+        if kind == "np_fix":
+            mk = call(tc.NumpyFloatToFixConverter, s, b, f)
+            obj = shaped(np, [from_dy(p) for p in case["vs"]], case["shape_kind"], np.float64)
+            want_dt = np.dtype(NP_DTYPE[(s, b)])
+        else:
+            mk = call(tc.NumpyFixToFloatConverter, f)
+            obj = shaped(np, case["ks"], case["shape_kind"], getattr(np, NP_DTYPE[(s, b)]))
+            want_dt = np.dtype(np.float64)
+        flat = np.asarray(obj, dtype=np.float64 if kind == "np_fix" else None).reshape(-1).tolist()
+        out["inputs"] = [to_dy(float(x)) for x in flat] if kind == "np_fix" else [int(x) for x in flat]
+        out["in_shape"] = list(np.shape(obj))
+        if "err" in mk:
+            out["ctor"] = mk
+            return out
+        r = call_keep(out, "the call", mk["ok"], obj)
+        if "err" in r:
+            out["err"] = r
+            return out
+        res = r["ok"]
+        out["shape"] = list(np.shape(res))
+        out["dtype"] = str(np.asarray(res).dtype)
+        out["meta"] = bool(np.shape(res) == np.shape(obj) and np.asarray(res).dtype == want_dt)
+        vals = np.asarray(res).reshape(-1).tolist()
+        out["ret"] = [{"ok": int(v)} if kind == "np_fix" else {"ok": canon_float(v)} for v in vals]
+    return out
+
+
+def eval_shape(ctx, cases):
+    reqs, idx = [], []
+    var = ctx.extra.get("code_variant") or detect_variant(ctx)
+    for c in cases:
+        c["impl"] = impl = impl_shape(c)
+        fmt = c["fmt"]
+        narrow = {"f32_m2": "f32", "f16_T": "f16", "z_f32": "f32"}.get(c["shape_kind"])
+        if c["conv"] == "np_fix":
+            # the format is legal when the model converts a probe value; the elements follow the probe
+            vs = [[0, 0]] + impl["inputs"]
+            if narrow and var.get("narrow") != "float64":
+                reqs.append(fmt_req(fmt, "np_float_to_fix_narrow", vs=vs, repaired=var.get("np") == "repaired", prec=narrow))
+            else:
+                reqs.append(fmt_req(fmt, "np_float_to_fix", vs=vs, repaired=var.get("np") == "repaired"))
+            idx.append((c, "model"))
+            rs = [r["ok"] for r in impl.get("ret", [])]
+            if len(rs) == len(impl["inputs"]):
+                reqs.append(fmt_req(fmt, "spec_fp", vs=impl["inputs"], rs=rs))
+                idx.append((c, "oracle"))
+        else:
+            reqs.append({"suite": "c16", "op": "np_fix_to_float", "frac": fmt["frac"], "ks": [0] + impl["inputs"]})
+            idx.append((c, "model"))
+    for (d, what), r in zip(idx, ctx.lean(reqs)):
+        d[what] = r
+    for c in cases:
+        judge_shape(ctx, c)
+
+
+def judge_shape(ctx, c):
+    impl, fmt, kind = c["impl"], c["fmt"], c["conv"]
+    desc = {k: c[k] for k in ("kind", "conv", "fmt", "shape_kind", "vs", "ks") if k in c}
+    name = "NumpyFloatToFixConverter" if kind == "np_fix" else "NumpyFixToFloatConverter"
+    who = "%s %s on an input of shape %r (%s)" % (name, describe(fmt), tuple(impl["in_shape"]), c["shape_kind"])
+    ctx.traces += 1
+    model = [canon_model_float(m) for m in c["model"]] if kind == "np_float" else c["model"]
+    probe, model = model[0], model[1:]
+    legal = "ok" in probe
+    ctx.tag("shape_%s_%s" % (kind, c["shape_kind"]))
+    ctx.tag("shape_%s_%s%d" % (kind, "S" if fmt["signed"] else "U", fmt["bits"]))
+    if "ctor" in impl:
+        if legal:
+            ctx.mismatch("c16.shape", "%s: the constructor raised %s" % (who, impl["ctor"]["err"]), desc)
+        ctx.case(desc, False)
+        return
+    if "err" in impl:
+        a = impl["err"]
+        if legal and all("ok" in m for m in model):
+            ctx.violation(exc_key(a, "exception-on-valid-input"),
+                          "%s raised %s; the input is legal (%d elements) and the scalar converter gives %r" % (
+                              who, a["err"], len(model), [m["ok"] for m in model][:6]), desc)
+        elif legal:
+            ctx.tag("shape_exception_outside_domain")
+        if not legal and probe.get("err") not in (a["err"], "domain"):
+            ctx.mismatch("c16.shape", "%s raised %s, the model %r" % (who, a["err"], probe), desc)
+        ctx.case(desc, len(model) == 0)
+        return
+    if not legal and probe.get("err") != "domain":
+        ctx.mismatch("c16.shape", "%s returned a value, the model raises %r" % (who, probe), desc)
+    if impl.get("meta") is False:
+        ctx.violation("array-shape-dtype", "%s returned shape %r dtype %s" % (who, tuple(impl["shape"]), impl["dtype"]), desc)
+    if impl.get("input_modified"):
+        ctx.violation("array-input-modified", "%s changed the caller's input: %s" % (who, impl["input_modified"][:300]), desc)
+    if len(impl["ret"]) != len(model):
+        ctx.violation("array-shape-dtype", "%s returned %d elements for %d" % (who, len(impl["ret"]), len(model)), desc)
+    else:
+        for i, (a, m) in enumerate(zip(impl["ret"], model)):
+            if m.get("ok") == "unspecified" or m.get("err") == "domain":
+                continue
+            if a != m:
+                ctx.mismatch("c16.shape", "%s element %d input=%r impl=%r model=%r" % (who, i, impl["inputs"][i], a, m), desc)
+                if kind == "np_float" and "ok" in m:
+                    ctx.violation("array-ne-scalar-to-float", "%s: element %r -> %r, value * 2^-n_frac is %r" % (
+                        who, impl["inputs"][i], a.get("ok"), m["ok"]), desc)
+                break
+        for i, ok in enumerate(c.get("oracle", [])):
+            if not ok:
+                ctx.violation("array-rule", "%s: element %r -> %r violates the conversion rule" % (
+                    who, from_dy(impl["inputs"][i]), impl["ret"][i]["ok"]), desc)
+                break
+    ctx.case(desc, len(model) == 0 or len(impl["in_shape"]) != 1)
+
+
 def eval_cases(ctx, cases):
     conv = [c for c in cases if c["kind"] == "conv"]
     inv = [c for c in cases if c["kind"] == "inv"]
@@ -2120,6 +2359,9 @@ def eval_cases(ctx, cases):
     seqs = [c for c in cases if c["kind"] == "seq"]
     reuse = [c for c in cases if c["kind"] == "reuse"]
     scale = [c for c in cases if c["kind"] == "scale"]
+    shapes = [c for c in cases if c["kind"] == "shape"]
+    for i in range(0, len(shapes), 1500):
+        eval_shape(ctx, shapes[i:i + 1500])
     for i in range(0, len(conv), 1500):
         eval_conv(ctx, conv[i:i + 1500])
     for i in range(0, len(inv), 1500):
@@ -2232,6 +2474,7 @@ def run(ctx):
     cases += [gen_scale_case(rng, size) for size in SCALE_SIZES] + [gen_scale_case(rng) for _ in range(ctx.scale(2, 36))]
     cases += [gen_scale_scalar_case(rng) for _ in range(ctx.scale(6, 60))]
     cases += [gen_npscalar_case(rng) for _ in range(ctx.scale(500, 8000))]
+    cases += gen_shape_cases(rng, ctx.scale(1, 8))
     if not ctx.quick or ctx.extended:
         # all boundary neighbourhoods of every (signed, bits, frac)
         for signed in (True, False):
